@@ -103,6 +103,16 @@ class Ctx:
             self.call_sites += sum(1 for e in it.events if e['tag'] in ('call', 'extcall', 'extmethod'))
         return self._entries[key]
 
+    def package_scan(self, include_plots=True):
+        """Interpret every top-level function / method of the package once (for package-wide effect rules)."""
+        if getattr(self, '_scan', None) is None:
+            self._scan = []
+            for q, fi in sorted(self.p.functions.items()):
+                if fi.parent is not None:
+                    continue
+                self._scan.append(self.entry(q))
+        return self._scan
+
     def events(self, it, tag, fn=None):
         out = []
         for e in it.events:
